@@ -34,6 +34,8 @@ Verdict passthrough_oracle(const ExecOp &op, const ExecObs &o, const RunResult &
     if (!o.args_equal) return bad("args-altered", at + o.args_diff);
     for (auto &e : r.hist) if (e.opi == o.opi && e.seq > o.exec_seq && e.k != "EXEC")
         return bad("work-after-exec", at + "'" + e.k + "' " + e.s + " happens after the real exec was entered");
+    if (o.steps_after_exec > 0 || o.heap_ops_after_exec > 0)
+        return bad("work-after-exec", at + "the library is still at work after the real exec was entered (" + std::to_string(o.steps_after_exec) + " intercepted calls, " + std::to_string(o.heap_ops_after_exec) + " heap operations after it returned)");
     if (op.success) { if (o.returned) return bad("result-altered", at + "successful exec returned to the caller"); }
     else {
         if (!o.returned) return bad("result-altered", at + "failing exec did not return");
